@@ -10,12 +10,16 @@ that list.
 
 Premises (DESIGN §6), all visible as hypotheses:
 * `Valid C [] ops` — every record of the history carries exactly the chapter names `C` with
-  distinct keys; the index list of a slice is what `slice.indices` yields (distinct, in range);
-  `pop` — which by construction removes a row from the logbook only, not from its chapters — is
-  used on chapter-less logbooks (`C = []`).  Out-of-range integer indices are allowed (they raise
-  and change nothing).
-* stream theorems: the recorded rows are pairwise different (each record carries its own id), so
-  that "delivered once" is observable.  No alignment premise is needed there.
+  distinct keys, its dictionaries holding scalars only (no sub-chapters); the index list of a
+  slice is what `slice.indices` yields (distinct, in range).  `pop`, `del [i]`, `del [slice]` are
+  all admitted on logbooks WITH chapters (since the repair F18 `pop` removes the row from every
+  chapter too); out-of-range integer indices are allowed (they raise and change nothing).
+* sub-chapters: `pop_exact_deep` / `del_exact_deep` hold for every logbook whose chapters are
+  aligned at every depth (`DeepAligned`), however deep; that `record` builds such logbooks from
+  records with sub-dictionaries is checked by the correspondence harness only.
+* stream theorems: additionally the recorded rows are pairwise different (each record carries its
+  own id), so that "delivered once" is observable.  (Alignment matters since F18: on a logbook
+  with a misaligned chapter `pop` moves `buffindex` and then raises.)
 * `header_once` is FALSE at full strength on the code as it is (finding F5): it is kept as
   `header_once_Statement`, refuted by `header_once_fails`, and proved as `header_once_partial`
   under the premise that the logbook is never emptied of all delivered rows after a header.
@@ -127,29 +131,30 @@ theorem chapters_aligned (C : List Name) (ops : List Op) (hv : Valid C [] ops) :
   have := congrArg List.length (h.chapters c hc)
   simpa [run, h.rows] using this
 
-/-- What goes wrong outside that premise, stated openly: `Logbook.pop` on a logbook WITH a
-chapter removes the row from the logbook only, so the chapter is longer afterwards (this is why
-`Valid` admits `pop` for chapter-less logbooks only; `del logbook[i]` is the chapter-aware form). -/
-theorem pop_leaves_chapters :
-    let ops := [Op.record (.mk [(0, 1)] [(10, .mk [(5, 7)] [])]), Op.pop 0]
-    (run ops).rows.length = 0 ∧ (chRows 10 (run ops)).length = 1 := by decide
-
 /-! ### Deletion removes exactly the addressed records -/
 
-/-- `del logbook[i]` with an in-range index (positive or negative) on a logbook that is the image
-of records `es`: nothing is raised, position `p` (the normalised index) leaves the logbook and
-every chapter, everything else stays in order. -/
+/-- `del logbook[i]` and `logbook.pop(i)` with an in-range index (positive or negative) on a
+logbook — with or without chapters — that is the image of records `es`: nothing is raised, `pop`
+returns the addressed record, position `p` (the normalised index) leaves the logbook and every
+chapter, everything else stays in order. -/
 theorem del_exact_index (C : List Name) (lb : LB) (es : List Entry) (h : Rep C lb es) (i : Int)
     (p : Nat) (hp : pos? lb.rows.length i = some p) :
     (delIndex i lb).2 = false ∧ (delIndex i lb).1.rows = lb.rows.eraseIdx p ∧
     (∀ c ∈ C, chRows c (delIndex i lb).1 = (chRows c lb).eraseIdx p) ∧
-    Rep C (delIndex i lb).1 (es.eraseIdx p) := by
+    Rep C (delIndex i lb).1 (es.eraseIdx p) ∧
+    (pop i lb).1 = lb.rows[p]? ∧ (pop i lb).2 = (delIndex i lb).1 := by
   have hlen : lb.rows.length = es.length := by rw [h.rows, List.length_map]
-  obtain ⟨h1, h2⟩ := h.delIndex i p (hlen ▸ hp)
-  refine ⟨h2, by rw [h1.rows, h.rows, eraseIdx_map], ?_, h1⟩
+  obtain ⟨h1, h2, h3⟩ := h.delIndex i p (hlen ▸ hp)
+  refine ⟨h2, by rw [h1.rows, h.rows, eraseIdx_map], ?_, h1, by rw [h3], (delIndex_eq_pop lb i).symm⟩
   intro c hc
   apply map_some_inj
   rw [h1.chapters c hc, ← eraseIdx_map, ← eraseIdx_map, h.chapters c hc]
+
+/-- an out-of-range index raises and changes nothing -/
+theorem del_out_of_range (C : List Name) (lb : LB) (es : List Entry) (h : Rep C lb es) (i : Int)
+    (hp : pos? lb.rows.length i = none) :
+    delIndex i lb = (lb, true) ∧ pop i lb = (none, lb) :=
+  ⟨delIndex_out lb i h.deep hp, pop_out_deep i lb h.deep hp⟩
 
 /-- `del logbook[slice]`, `idx` being the positions `range(*slice.indices(len))` of any slice
 (any start/stop, positive or negative step): nothing is raised and exactly the addressed
@@ -171,6 +176,37 @@ at every point of every valid history -/
 theorem history_is_image (C : List Name) (ops : List Op) (hv : Valid C [] ops) :
     Rep C (run ops) (specRun ops) := history_rep ops (Rep.empty C) hv
 
+/-- Sub-chapters.  On a logbook whose chapters are aligned at every depth, `pop(i)` / `del [i]`
+with an in-range index raise nothing, return the addressed row and remove position `p` from the
+logbook and from the chapter at EVERY path (`eraseDeep`), which stays aligned at every depth; an
+out-of-range index raises and changes nothing. -/
+theorem pop_exact_deep (lb : LB) (hd : DeepAligned lb) (i : Int) :
+    (∀ p, pos? lb.rows.length i = some p →
+      pop i lb = (lb.rows[p]?, eraseDeep p lb) ∧ delIndex i lb = (eraseDeep p lb, false) ∧
+      DeepAligned (eraseDeep p lb) ∧
+      ∀ path ch, chapterAt path lb = some ch →
+        ∃ ch', chapterAt path (eraseDeep p lb) = some ch' ∧ ch'.rows = ch.rows.eraseIdx p) ∧
+    (pos? lb.rows.length i = none → pop i lb = (none, lb) ∧ delIndex i lb = (lb, true)) := by
+  refine ⟨fun p hp => ⟨pop_deep i p lb hd hp, delIndex_deep lb i p hd hp, eraseDeep_aligned p lb hd, ?_⟩,
+    fun hp => ⟨pop_out_deep i lb hd hp, delIndex_out lb i hd hp⟩⟩
+  intro path ch hch
+  exact ⟨eraseDeep p ch, by rw [chapterAt_eraseDeep, hch]; rfl, eraseDeep_rows p ch⟩
+
+/-- … and `del [slice]` removes exactly the addressed positions from the chapter at every path. -/
+theorem del_exact_deep (lb : LB) (hd : DeepAligned lb) (idx : List Nat) (hn : idx.Nodup)
+    (hr : ∀ i ∈ idx, i < lb.rows.length) :
+    (delSlice idx lb).2 = false ∧ DeepAligned (delSlice idx lb).1 ∧
+    ∀ path ch, chapterAt path lb = some ch →
+      ∃ ch', chapterAt path (delSlice idx lb).1 = some ch' ∧ ch'.rows = removeIdx idx ch.rows := by
+  obtain ⟨h1, h2⟩ := delEach_deep (sortDesc idx) (sortDesc_strict idx hn) lb hd
+    (fun i hi => hr i ((mem_sortDesc i idx).1 hi))
+  have he : delSlice idx lb = (eraseAllDeep (sortDesc idx) lb, false) := h1
+  rw [he]
+  refine ⟨rfl, h2, ?_⟩
+  intro path ch hch
+  refine ⟨eraseAllDeep (sortDesc idx) ch, by rw [chapterAt_eraseAllDeep, hch]; rfl, ?_⟩
+  rw [eraseAllDeep_rows, eraseAll_sortDesc idx hn]
+
 /-- `removeIdx` is "the items whose position is not addressed" -/
 theorem removeIdx_spec {α : Type} (S : List Nat) (l : List α) :
     removeIdx S l = (l.zipIdx.filter fun p => decide (p.2 ∉ S)).map (·.1) := rfl
@@ -189,10 +225,11 @@ theorem stream_spec (lb : LB) :
   · rfl
 
 /-- Reading the stream repeatedly, interleaved with any records, pops, index and slice deletions
-(valid or not, raising or not), never delivers a record twice. -/
-theorem stream_at_most_once (ops : List Op) (hd : (recordedOf ops).Nodup) :
+(in range or raising) of a valid history, never delivers a record twice. -/
+theorem stream_at_most_once (C : List Name) (ops : List Op) (hv : Valid C [] ops)
+    (hd : (recordedOf ops).Nodup) :
     (delivered ops).Nodup ∧ ∀ r ∈ delivered ops, r ∈ recordedOf ops := by
-  obtain ⟨h1, h2, _⟩ := stream_inv ops LB.empty [] Inv.empty hd (by simp [LB.empty])
+  obtain ⟨h1, h2, _⟩ := stream_inv ops LB.empty [] [] (Rep.empty C) hv Inv.empty hd (by simp [LB.empty])
   obtain ⟨A, B, _, _, _, h3, _⟩ := h1
   refine ⟨by simpa [delivered, streams] using h3, ?_⟩
   intro r hr
@@ -202,16 +239,19 @@ theorem stream_at_most_once (ops : List Op) (hd : (recordedOf ops).Nodup) :
 
 /-- … and after a final reading every record still in the logbook has been delivered exactly
 once (it is in the duplicate-free list of deliveries). -/
-theorem stream_exactly_once (ops : List Op) (hd : (recordedOf ops).Nodup) :
+theorem stream_exactly_once (C : List Name) (ops : List Op) (hv : Valid C [] ops)
+    (hd : (recordedOf ops).Nodup) :
     (delivered (ops ++ [.stream])).Nodup ∧
     (∀ r ∈ (run ops).rows, r ∈ delivered (ops ++ [.stream])) ∧
     (∀ r ∈ delivered (ops ++ [.stream]), r ∈ recordedOf ops) := by
   have hrec : recordedOf (ops ++ [Op.stream]) = recordedOf ops := by
     rw [recordedOf_append]; simp [recordedOf]
   have hd' : (recordedOf (ops ++ [Op.stream])).Nodup := by rw [hrec]; exact hd
-  obtain ⟨g1, g2⟩ := stream_at_most_once (ops ++ [.stream]) hd'
+  have hv' : Valid C [] (ops ++ [Op.stream]) := by
+    rw [valid_append]; exact ⟨hv, by simp [Valid, OpOk]⟩
+  obtain ⟨g1, g2⟩ := stream_at_most_once C (ops ++ [.stream]) hv' hd'
   refine ⟨g1, ?_, fun r hr => hrec ▸ g2 r hr⟩
-  obtain ⟨h1, _, _⟩ := stream_inv (ops ++ [.stream]) LB.empty [] Inv.empty hd' (by simp [LB.empty])
+  obtain ⟨h1, _, _⟩ := stream_inv (ops ++ [.stream]) LB.empty [] [] (Rep.empty C) hv' Inv.empty hd' (by simp [LB.empty])
   obtain ⟨A, B, a1, a2, _, _, a5, _⟩ := h1
   have hrun : runFrom LB.empty (ops ++ [Op.stream]) = (stream (run ops)).2 := by
     rw [runFrom_append]; rfl
@@ -284,9 +324,10 @@ theorem header_once_partial (ops : List Op) (hne : NeverEmptied ops) : headerCou
 
 /-- `buffindex = 0` says exactly that no delivered row is left in the logbook (for histories with
 pairwise different records), which is the observable form of the premise above. -/
-theorem buffindex_zero_iff (ops : List Op) (hd : (recordedOf ops).Nodup) :
+theorem buffindex_zero_iff (C : List Name) (ops : List Op) (hv : Valid C [] ops)
+    (hd : (recordedOf ops).Nodup) :
     (run ops).buffindex = 0 ↔ ∀ r ∈ (run ops).rows, r ∉ delivered ops := by
-  obtain ⟨h1, _, _⟩ := stream_inv ops LB.empty [] Inv.empty hd (by simp [LB.empty])
+  obtain ⟨h1, _, _⟩ := stream_inv ops LB.empty [] [] (Rep.empty C) hv Inv.empty hd (by simp [LB.empty])
   obtain ⟨A, B, a1, a2, a3, _, a5, a6⟩ := h1
   simp only [List.nil_append] at a5 a6
   have hrun : runFrom LB.empty ops = run ops := rfl
@@ -374,14 +415,17 @@ end Statistics
 
 /-! ### Non-vacuity: concrete instances of the hypotheses above -/
 
-/-- records with the chapter `10`, a stream, a negative-index deletion, a slice deletion -/
+/-- records with the chapter `10`, a stream, a negative-index deletion, a `pop` on the logbook
+with its chapter, a slice deletion -/
 def demoOps : List Op :=
   [.record (.mk [(0, 1), (1, 0)] [(10, .mk [(5, 7)] [])]),
    .record (.mk [(0, 2), (1, 1)] [(10, .mk [(5, 9), (1, 4)] [])]),
    .stream,
    .record (.mk [(0, 3)] [(10, .mk [] [])]),
    .record (.mk [(0, 4)] [(10, .mk [(5, 8)] [])]),
-   .delIndex (-3),
+   .record (.mk [(0, 5)] [(10, .mk [(5, 6)] [])]),
+   .delIndex (-4),
+   .pop (-1),
    .delSlice [1],
    .stream]
 
@@ -395,17 +439,32 @@ example : (run demoOps).rows = [[(0, 1), (1, 0)], [(0, 4)]] ∧
 example : (recordedOf demoOps).Nodup := by decide
 example : NeverEmptied demoOps := by
   intro k hk
-  have : k = 0 ∨ k = 1 ∨ k = 2 ∨ k = 3 ∨ k = 4 ∨ k = 5 ∨ k = 6 ∨ k = 7 ∨ 8 ≤ k := by omega
-  rcases this with rfl | rfl | rfl | rfl | rfl | rfl | rfl | rfl | h
+  have : k = 0 ∨ k = 1 ∨ k = 2 ∨ k = 3 ∨ k = 4 ∨ k = 5 ∨ k = 6 ∨ k = 7 ∨ k = 8 ∨ k = 9 ∨ 10 ≤ k := by
+    omega
+  rcases this with rfl | rfl | rfl | rfl | rfl | rfl | rfl | rfl | rfl | rfl | h
   · revert hk; decide
   · revert hk; decide
   · revert hk; decide
+  · decide
+  · decide
   · decide
   · decide
   · decide
   · decide
   · decide
   · rw [List.take_of_length_le (by simpa [demoOps] using h)]; decide
+-- a logbook with chapter 10 and sub-chapter 20, aligned at every depth; `pop(-1)` and a slice
+-- deletion reach the sub-chapter
+def deepLB : LB := run [.record (.mk [(0, 1)] [(10, .mk [(5, 7)] [(20, .mk [(6, 1)] [])])]),
+                        .record (.mk [(0, 2)] [(10, .mk [(5, 8)] [(20, .mk [(6, 2)] [])])]),
+                        .record (.mk [(0, 3)] [(10, .mk [(5, 9)] [(20, .mk [(6, 3)] [])])])]
+example : DeepAligned deepLB := by
+  simp [deepLB, run, runFrom, step, record, recordAux, recordDicts, modifyChapter, dictHas, dictUpdate,
+    dictSet, LB.empty, DeepAligned, AllAligned]
+example : ((chapterAt [10, 20] (pop (-1) deepLB).2).map LB.rows) =
+      some [[(6, 1), (5, 7), (0, 1)], [(6, 2), (5, 8), (0, 2)]] ∧
+    ((chapterAt [10, 20] (delSlice [2, 0] deepLB).1).map LB.rows) = some [[(6, 2), (5, 8), (0, 2)]] := by
+  decide
 example : ¬ NeverEmptied f5Witness := fun h => absurd (h 3 (by decide)) (by decide)
 -- the scalar fields win over equal keys of the dictionary (key 1 above: 4 is replaced by 1)
 example : chapterRow 10 (.mk [(0, 2), (1, 1)] [(10, .mk [(5, 9), (1, 4)] [])]) = some [(5, 9), (1, 1), (0, 2)] := by
